@@ -143,6 +143,15 @@ def run(e: Engine, rep: Report):
              'un-stuffs)')
     from . import c05 as _c05
     _c05.r516(e, rep, 'X14')
+    rep.rule('X17', 'the outcome the relay reports is the reply the edge '
+             'gave: SmtpRelayError.factory and the error classes it makes '
+             'hand on the reply they were given (no other Reply is built '
+             'from it, its code is not rewritten)')
+    rep.rule('X18', 'the verdict on an address is the edge\'s: the relay '
+             'client\'s MAIL / RCPT steps build no Reply of their own - what '
+             'they raise or return is what Client.mailfrom / rcptto '
+             'returned')
+    x17_x18(e, rep)
     rep.floor('X1', 4, 'command framing obligations')
     rep.floor('X4', 6, 'HTTP agreement obligations')
 
@@ -1622,3 +1631,73 @@ def x16(e: Engine, rep: Report):
                   'permanent failure the edge never decided'
                   % (v.value, sorted(accepted)), loc=n.loc(),
                   reason='in the edge\'s accepted set')
+
+
+# --------------------------------------------------------------- X17 / X18
+def x17_x18(e: Engine, rep: Report):
+    mod = 'slimta.relay.smtp'
+    n = 0
+    for f in sorted(e.p.functions.values(), key=lambda f: f.qname):
+        if f.module.name != mod or f.cls is None or \
+                'RelayError' not in f.cls.name:
+            continue
+        if f.name not in ('factory', '__init__'):
+            continue
+        rp = [p for p in f.params if p == 'reply']
+        if not rp:
+            continue
+        n += 1
+        rep.evaluations += 1
+        rep.functions.add(f.qname)
+        rebound = [x for x in walk_own(f.node) if isinstance(x, ast.Name) and
+                   x.id == 'reply' and isinstance(x.ctx, (ast.Store,
+                                                         ast.Del))]
+        made = [x for x in walk_own(f.node) if isinstance(x, ast.Call) and
+                ast.unparse(x.func).rpartition('.')[2] == 'Reply']
+        wrote = [x for x in walk_own(f.node) if isinstance(x, ast.Attribute)
+                 and isinstance(x.ctx, ast.Store) and
+                 isinstance(x.value, ast.Name) and x.value.id == 'reply' and
+                 x.attr in ('code', 'message', 'enhanced_status_code')]
+        bad = rebound or made or wrote
+        rep.check(not bad, 'X17', f.qname,
+                  'the relay error carries the reply it was given',
+                  '%s does not hand on the reply of the edge as it is (`%s`)'
+                  ': the sending side reports another code than the '
+                  'receiving side gave - a 552 "message too big" becomes a '
+                  '452 that is retried for days, or the other way round'
+                  % (f.qname, ' '.join(ast.unparse(
+                      (rebound or made or wrote)[0]).split())[:50]
+                     if bad else ''),
+                  loc=f.loc((rebound or made or wrote)[0]) if bad
+                  else f.loc(), reason='parameter handed on unchanged')
+    if n < 3:
+        rep.error('anchor vanished: SmtpRelayError.factory / __init__ '
+                  '(%d < 3)' % n)
+    m = 0
+    for cq in e.concrete_classes('slimta.relay.smtp.client.SmtpRelayClient'):
+        for meth in ('_mailfrom', '_rcptto'):
+            ctx = e.method_ctx(cq, meth)
+            if ctx.func.cls.qname != cq and \
+                    cq != 'slimta.relay.smtp.client.SmtpRelayClient':
+                continue
+            g = e.build(ctx, raises=lambda b, nn, r: set(),
+                        inline=e.inline_same_self(), max_depth=3)
+            where = ctx.func.qname
+            for fr in {x.frame for x in g.nodes}:
+                rep.functions.add(fr.ctx.func.qname)
+            m += 1
+            rep.evaluations += 1
+            made = [x for x in g.calls()
+                    if ast.unparse(x.ast.func).rpartition('.')[2] == 'Reply']
+            rep.check(not made, 'X18', where,
+                      'no reply of its own before / instead of the command',
+                      '%s builds a Reply itself (`%s`): the relay answers '
+                      'for the edge - an address the edge would have '
+                      'accepted is refused locally (or the other way '
+                      'round), sender and recipients are no longer what '
+                      'the receiving side decided on' % (
+                          meth, made[0].text(50) if made else ''),
+                      loc=made[0].loc() if made else ctx.func.loc(),
+                      reason='only Client.%s() replies' % meth.lstrip('_'))
+    if m < 2:
+        rep.error('anchor vanished: _mailfrom / _rcptto of the relay client')
